@@ -410,6 +410,54 @@ pub fn run_check(prop: &dyn Prop, cfg: &RunCfg) -> i32 {
         }
     }
 
+    // 3b. coverage-guided stage (thorough tier, or GTV_FUZZ_RUNS=<n> for a trial)
+    let mut fuzz_report = json!({"available": false, "reason": "not part of this tier"});
+    let trial_runs = std::env::var("GTV_FUZZ_RUNS").ok().and_then(|x| x.parse::<u64>().ok());
+    if let Some(target) = prop.fuzz_target() {
+        if failures.is_empty() && (cfg.tier.name() == "thorough" || trial_runs.is_some()) {
+            let runs = trial_runs.unwrap_or_else(|| prop.fuzz_runs());
+            let fo = super::fuzzstage::run(&cfg.root, prop, target, cfg.seed, runs);
+            fuzz_report = fo.report;
+            let mut confirmed = 0u64;
+            let mut not_confirmed = 0u64;
+            if !fo.artifacts.is_empty() {
+                let mut w = Worker::spawn(prop.id()).expect("spawn worker");
+                for (path, case) in fo.artifacts {
+                    let (o, _) = eval_confirmed(prop, &mut w, &case, prop.watchdog_ms(), true);
+                    if let Some(sig) = o.verdict.signature() {
+                        if let Some(f) = known.matches_open(prop.id(), sig) {
+                            *total.excluded_known.entry(f.id.clone()).or_default() += 1;
+                            continue;
+                        }
+                        if matches!(&o.verdict, Verdict::Violation { kind, .. } if kind == "harness") {
+                            not_confirmed += 1;
+                            continue;
+                        }
+                        confirmed += 1;
+                        if failures.len() < 4 {
+                            failures.push((
+                                Failure {
+                                    lane: 0,
+                                    case,
+                                    verdict: o.verdict.clone(),
+                                    origin: format!("fuzz:{}", path.display()),
+                                },
+                                None,
+                            ));
+                        }
+                    } else {
+                        // libFuzzer stopped on it (its own time or memory limit, or a violation
+                        // that does not reproduce in a fresh worker): no verdict
+                        not_confirmed += 1;
+                        total.absorb(&o, &case);
+                    }
+                }
+            }
+            fuzz_report["artifacts_confirmed_as_violations"] = json!(confirmed);
+            fuzz_report["artifacts_not_confirmed"] = json!(not_confirmed);
+        }
+    }
+
     // 4. verdict
     let mut exit = 0;
     let mut violation_lines = vec![];
@@ -451,6 +499,7 @@ pub fn run_check(prop: &dyn Prop, cfg: &RunCfg) -> i32 {
             "lanes": LANES,
             "replayed": replayed,
             "missing_required_classes": missing,
+            "fuzz": fuzz_report,
         },
         "assumptions": prop.assumptions(),
         "wall_s": wall,
